@@ -42,7 +42,8 @@ def case_size(case):
 def gen_transfer_case(rng, run_seed):
     fn = rng.choice(["fractional", "random"])
     n = rng.randint(2, 5)
-    cands = CANDS[:n]
+    # multi-character names half of the time: equal names are then distinct str objects (single characters are shared singletons)
+    cands = (CANDS if rng.random() < 0.5 else ["Alice", "Bobby", "Carol", "Dee Dee", "Eve"])[:n]
     winner = rng.choice(cands)
     others = [c for c in cands if c != winner]
     nb = rng.randint(1, 8)
